@@ -41,3 +41,9 @@ package utils
 //@   property C05 C20
 //@   nopanic
 //@   ensures result <==> value > 0.0
+
+//@ func ContainsString
+//@   property C09 C20 C01
+//@   nopanic
+//@   ensures [member] result <==> exists k int :: 0 <= k && k < len(*slice) && (*slice)[k] == *value
+//@   loop 1 invariant [none] forall k int :: 0 <= k && k < iter ==> (*slice)[k] != *value
